@@ -273,3 +273,88 @@ pub fn random_diagram(r: &mut StdRng, c: &RandCfg) -> Value {
     };
     mk(&vs, &es, &ins, &outs, sc)
 }
+
+// ---------------------------------------------------------------------------------------------
+// opt-in GENERIC phases (not multiples of pi/4): the floating-point clause of C01 / C02 / C03 / C04 / C08
+// ---------------------------------------------------------------------------------------------
+
+pub const GENERIC_DENS: [i64; 7] = [3, 5, 6, 7, 8, 12, 16];
+
+/// a phase n/d (units of pi) with d in {3,5,6,7,8,12,16}, n coprime to d, in (-1, 1]
+pub fn generic_phase(r: &mut StdRng) -> Value {
+    fn gcd(a: i64, b: i64) -> i64 {
+        if b == 0 {
+            a.abs()
+        } else {
+            gcd(b, a % b)
+        }
+    }
+    let d = GENERIC_DENS[r.random_range(0..GENERIC_DENS.len())];
+    loop {
+        let n = r.random_range((1 - d)..d);
+        if n != 0 && gcd(n, d) == 1 {
+            return json!([n, d]);
+        }
+    }
+}
+
+/// Overwrite the phase of every spider with a generic one with probability `p` (boundaries, and - so that phase gadgets
+/// stay phase gadgets - the hub of a degree-1 spider keep theirs); variables are removed (the float oracle has none).
+/// Returns the number of phases replaced.
+pub fn make_generic(a: &mut Value, r: &mut StdRng, p: f64) -> usize {
+    let mut deg: std::collections::HashMap<u64, usize> = Default::default();
+    for e in a["e"].as_array().unwrap() {
+        *deg.entry(e["u"].as_u64().unwrap()).or_insert(0) += 1;
+        *deg.entry(e["w"].as_u64().unwrap()).or_insert(0) += 1;
+    }
+    let ty_of: std::collections::HashMap<u64, String> =
+        a["v"].as_array().unwrap().iter().map(|v| (v["id"].as_u64().unwrap(), v["ty"].as_str().unwrap().to_string())).collect();
+    let mut hubs: Vec<u64> = vec![];
+    for e in a["e"].as_array().unwrap() {
+        let (u, w) = (e["u"].as_u64().unwrap(), e["w"].as_u64().unwrap());
+        if ty_of[&u] != "B" && ty_of[&w] != "B" {
+            if deg[&u] == 1 {
+                hubs.push(w);
+            }
+            if deg[&w] == 1 {
+                hubs.push(u);
+            }
+        }
+    }
+    let mut n = 0;
+    for v in a["v"].as_array_mut().unwrap() {
+        v["vars"] = json!([]);
+        v["vc"] = json!(false);
+        let id = v["id"].as_u64().unwrap();
+        if v["ty"] == "B" || (hubs.contains(&id) && r.random_bool(0.8)) {
+            continue;
+        }
+        if r.random_bool(p) {
+            v["ph"] = generic_phase(r);
+            n += 1;
+        }
+    }
+    a["sf"] = json!([]);
+    n
+}
+
+/// seeded generic-phase diagrams for the engines' `--generic N` tier: variable-free, <= 6 spiders + <= 3 boundaries, alternately
+/// arbitrary ZX (Z and X, both edge types, scalars) and graph-like with phase gadgets; at least one generic phase each
+pub fn generic_diagram(r: &mut StdRng, i: usize) -> Value {
+    let cfg = if i % 2 == 0 {
+        RandCfg { min_sp: 1, max_sp: 6, max_b: 3, ..RandCfg::any_zx() }
+    } else {
+        RandCfg { min_sp: 1, max_sp: 5, max_b: 3, phs: vec![0, 1, 2, 4, 6], gadgets: 2, ..RandCfg::graph_like() }
+    };
+    loop {
+        let mut a = random_diagram(r, &cfg);
+        let p = [0.35, 0.6, 0.9][r.random_range(0..3)];
+        if make_generic(&mut a, r, p) > 0 {
+            // every other diagram: the stored scalar carries a generic phase factor e^{i pi n/d} (float-approximate from the start)
+            if r.random_bool(0.5) {
+                a["scph"] = generic_phase(r);
+            }
+            return a;
+        }
+    }
+}
